@@ -158,6 +158,7 @@ class Builder(object):
 
     def copy(self):
         b = Builder(self.env, self.call_alias, self.name_map, self.on_call)
+        b._depth = self._depth
         return b
 
     # -- expressions
@@ -294,11 +295,56 @@ class Builder(object):
     def t_IfExp(self, node):
         return ('ifexp', simp(self.t(node.test)), simp(self.t(node.body)), simp(self.t(node.orelse)))
 
+    # bound variables (lambda arguments, comprehension targets) are alpha-renamed to canonical
+    # names so that renaming them does not change the term
+    _depth = 0
+
+    def _bind(self, b, names):
+        out = []
+        for nm in names:
+            canon = '_b%d' % b._depth
+            b._depth += 1
+            b.env[nm] = ('name', canon)
+            out.append(canon)
+        return out
+
     def t_Lambda(self, node):
         b = self.copy()
-        for a in node.args.args:
-            b.env.pop(a.arg, None)
-        return ('lambda', tuple(a.arg for a in node.args.args), simp(b.t(node.body)))
+        b._depth = self._depth
+        a = node.args
+        names = [x.arg for x in a.posonlyargs + a.args] + ([a.vararg.arg] if a.vararg else []) + \
+            [x.arg for x in a.kwonlyargs] + ([a.kwarg.arg] if a.kwarg else [])
+        canon = self._bind(b, names)
+        dflt = tuple(simp(self.t(d)) for d in a.defaults)
+        return ('lambda', tuple(canon), dflt, simp(b.t(node.body)))
+
+    def _comp(self, kind, node, elts):
+        b = self.copy()
+        b._depth = self._depth
+        gens = []
+        for g in node.generators:
+            it = simp(b.t(g.iter))
+            names = [n.id for n in ast.walk(g.target) if isinstance(n, ast.Name)]
+            self._bind(b, names)
+            tg = simp(b.t(g.target))
+            ifs = tuple(simp(b.t(i)) for i in g.ifs)
+            gens.append((tg, it, ifs))
+        return (kind, tuple(simp(b.t(e)) for e in elts), tuple(gens))
+
+    def t_ListComp(self, node):
+        return self._comp('listcomp', node, [node.elt])
+
+    def t_GeneratorExp(self, node):
+        return self._comp('genexp', node, [node.elt])
+
+    def t_SetComp(self, node):
+        return self._comp('setcomp', node, [node.elt])
+
+    def t_DictComp(self, node):
+        return self._comp('dictcomp', node, [node.key, node.value])
+
+    def t_Set(self, node):
+        return ('set',) + tuple(sorted((simp(self.t(e)) for e in node.elts), key=repr))
 
     def t_JoinedStr(self, node):
         return ('opaque', unparse(node))
